@@ -29,15 +29,24 @@ def hasCtl (b : Bytes) : Bool := b.any (fun c => c == 13 || c == 10 || c == 0)
 def validatePartBytes (b : Bytes) : Except PyErr Bytes :=
   if hasCtl (Bytes.strip b) then .error .valueError else .ok (Bytes.strip b)
 
-/-- the name as it would be sent must be neither empty nor a pseudo header: `validated_name[:1] in {b"", b":"}` -/
-def nameRefused (n : Bytes) : Bool := match n with | [] => true | c :: _ => c == 58
+/-- `_TOKEN_CHARACTERS`: the characters of a field name (a token, RFC 9110 5.1) -/
+def isTchar (c : UInt8) : Bool :=
+  (48 ≤ c && c ≤ 57) || (65 ≤ c && c ≤ 90) || (97 ≤ c && c ≤ 122) ||
+  c == 33 || c == 35 || c == 36 || c == 37 || c == 38 || c == 39 || c == 42 || c == 43 || c == 45 || c == 46 ||
+  c == 94 || c == 95 || c == 96 || c == 124 || c == 126
 
-/-- `validated_name = validate_header_part(name)`, then the pseudo / empty test on the stripped name -/
+/-- the name as it would be sent must be neither empty nor a pseudo header (`validated_name[:1] in {b"", b":"}`)
+    and must be a token (`_TOKEN_CHARACTERS.issuperset(validated_name)`) -/
+def nameRefused (n : Bytes) : Bool := (match n with | [] => true | c :: _ => c == 58) || !n.all isTchar
+
+/-- `validate_header_name`: `validate_header_part(name)`, then the pseudo / empty / token tests on the stripped name -/
+def validateNameBytes (b : Bytes) : Except PyErr Bytes :=
+  match validatePartBytes b with
+  | .error e => .error e
+  | .ok n => if nameRefused n then .error .valueError else .ok n
+
 def validateName : HV → Except PyErr Bytes
-  | .bytes b =>
-    match validatePartBytes b with
-    | .error e => .error e
-    | .ok n => if nameRefused n then .error .valueError else .ok n
+  | .bytes b => validateNameBytes b
   | .str _ => .error .typeError
   | .int _ => .error .typeError
   | .none => .error .typeError
